@@ -306,6 +306,31 @@ def holds (c : CaseObs) : Bool :=
   c.runs.all (fun o => !o.nondet && o.fails == 0 && conserves c.recs o) &&
   batchInvariant (c.runs.filter (·.full))
 
+/-- In-memory observation (`runmem`: `GetUpdatedAggregations` batch by batch, no state file): the aggregation itself,
+    with EXACT timestamps (no truncation to seconds; any int64 magnitude, e.g. nanosecond-resolution sources). -/
+structure MemObs where
+  eps : EMap
+  ces : CMap
+  its : IMap
+deriving Repr
+
+/-- exact conservation for an in-memory observation: per method (and consumer tag × method) count, per-status counts,
+    EXACT earliest and latest timestamp; `count = Σ status`; interceptors carry exactly their latest timestamp -/
+def memConserves (recs : List Rec) (o : MemObs) : Bool :=
+  let rs := external recs
+  let methods := dedupS (rs.map (·.method) ++ o.eps.map (·.1.1) ++ o.ces.map (·.1.2.1))
+  let tags := dedupS (rs.map (fun r => consumerOf r.consumer) ++ o.ces.map (·.1.1))
+  let codes := dedupN (rs.map (·.status) ++ (o.eps.flatMap (·.2.status)).map (·.1) ++ (o.ces.flatMap (·.2.status)).map (·.1))
+  let ikeys := (rs.map (fun r => interceptorOf r.interceptor) ++ o.its.map (·.1))
+  let agree := fun (a b : Sem) =>
+    a.cnt == b.cnt && codes.all (fun c => a.stc c == b.stc c) && a.mn == b.mn && a.mx == b.mx
+  methods.all (fun m =>
+    agree (sem o.eps (fun k => k.1 == m)) (sem (singles rs) (fun k => k.1 == m)) &&
+    tags.all (fun t =>
+      agree (sem o.ces (fun k => k.1 == t && k.2.1 == m)) (sem (singlesC rs) (fun k => k.1 == t && k.2.1 == m)))) &&
+  o.eps.all (fun p => countOk p.2) && o.ces.all (fun p => countOk p.2) &&
+  ikeys.all (fun i => isem o.its (· == i) == isem (singlesI rs) (· == i))
+
 /-- Which known finding (if any) explains a failing case. -/
 def finding (c : CaseObs) : Option String :=
   -- F15c explains statistics that depend on the batch boundaries, never traffic that is missing
